@@ -6,7 +6,7 @@ import psutil
 
 from labtech.monitor import get_process_info
 from labtech.runners.base import run_or_load_task
-from labtech.tasks import get_direct_dependencies
+from labtech.tasks import get_direct_dependency_instances
 from labtech.types import LabContext, ResultMeta, Runner, RunnerBackend, Storage, Task, TaskMonitorInfo, TaskResult
 from labtech.utils import logger
 
@@ -41,7 +41,7 @@ class SerialRunner(Runner):
 
         task = task_submission.task
         try:
-            for dependency_task in get_direct_dependencies(task):
+            for dependency_task in get_direct_dependency_instances(task):
                 dependency_task._set_results_map(self.results_map)
             task_result = run_or_load_task(
                 task=task,
